@@ -392,3 +392,71 @@ Section MatchSetFlat.
       apply (bool_case known d); apply G; assumption.
   Qed.
 End MatchSetFlat.
+
+(* ---------------------------------------------------------------- index construction <-> lookup *)
+Definition push (rid : N) (pos : Z) (pl : list (N * list Z)) : list (N * list Z) :=
+  match pl with
+  | (r, ps) :: pl' => if r =? rid then (r, pos :: ps) :: pl' else (rid, [pos]) :: pl
+  | [] => [(rid, [pos])]
+  end.
+
+Lemma lookup_add_occ : forall t t' rid pos idx,
+  lookup t (add_occ t' rid pos idx) = if t' =? t then push rid pos (lookup t idx) else lookup t idx.
+Proof.
+  intros t t' rid pos idx. induction idx as [|[t0 pl] rest IH]; cbn [add_occ lookup].
+  - destruct (N.eqb_spec t' t); reflexivity.
+  - destruct (N.eqb_spec t0 t') as [E0|E0].
+    + subst t0. destruct (N.eqb_spec t' t) as [E|E].
+      * destruct pl as [|[r ps] pl']; cbn [lookup push]; [rewrite E, N.eqb_refl; reflexivity|].
+        destruct (r =? rid); cbn [lookup]; rewrite E, N.eqb_refl; reflexivity.
+      * destruct pl as [|[r ps] pl']; cbn [lookup]; [destruct (N.eqb_spec t' t); [contradiction | reflexivity]|].
+        destruct (r =? rid); cbn [lookup]; destruct (N.eqb_spec t' t); try contradiction; reflexivity.
+    + cbn [lookup]. destruct (N.eqb_spec t0 t) as [E1|E1].
+      * destruct (N.eqb_spec t' t); [congruence | reflexivity].
+      * exact IH.
+Qed.
+
+Lemma lookup_add_tokens : forall t rid d i idx,
+  (forall r ps pl', lookup t idx = (r, ps) :: pl' -> r <> rid) ->
+  lookup t (add_tokens rid d i idx) =
+    match positions_of t d i with [] => lookup t idx | ps => (rid, ps) :: lookup t idx end.
+Proof.
+  intros t rid d. induction d as [|x d IH]; intros i idx Hh; [reflexivity|].
+  cbn [add_tokens positions_of]. rewrite lookup_add_occ, (IH (i + 1)%Z idx Hh).
+  destruct (N.eqb_spec x t) as [E|E]; [|reflexivity].
+  destruct (positions_of t d (i + 1)%Z) as [|p ps].
+  - unfold push. destruct (lookup t idx) as [|[r ps'] pl'] eqn:L; [reflexivity|].
+    destruct (N.eqb_spec r rid) as [Er|Er]; [exfalso; exact (Hh r ps' pl' eq_refl Er) | reflexivity].
+  - unfold push. rewrite N.eqb_refl. reflexivity.
+Qed.
+
+Lemma posting_head_in : forall t part r ps pl', posting t part = (r, ps) :: pl' -> In r (map fst part).
+Proof.
+  intros t part. induction part as [|[rid od] rest IH]; intros r ps pl' H; [discriminate|].
+  unfold posting in H. cbn [flat_map fst snd] in H. fold (posting t rest) in H.
+  destruct od as [d|]; [|right; eapply IH; exact H].
+  destruct (positions_of t d 0%Z); [right; eapply IH; exact H|].
+  cbn [app] in H. inversion H; subst. left. reflexivity.
+Qed.
+
+Lemma lookup_build : forall t part, NoDup (map fst part) -> lookup t (build part) = posting t part.
+Proof.
+  intros t part. induction part as [|[rid od] rest IH]; intros ND; [reflexivity|].
+  cbn [map fst] in ND. inversion ND as [|? ? Hnin ND']; subst.
+  unfold posting. cbn [flat_map fst snd build]. fold (posting t rest).
+  destruct od as [d|]; [|apply IH, ND'].
+  rewrite lookup_add_tokens.
+  - rewrite (IH ND'). destruct (positions_of t d 0%Z); reflexivity.
+  - intros r ps pl' H E. subst r. rewrite (IH ND') in H. apply Hnin. eapply posting_head_in. exact H.
+Qed.
+
+Lemma posting_spec : forall t part rid ps,
+  In (rid, ps) (posting t part) <-> exists d, In (rid, Some d) part /\ ps = positions_of t d 0%Z /\ ps <> [].
+Proof.
+  intros t part rid ps. unfold posting. rewrite in_flat_map. split.
+  - intros ([r od] & Hin & H). cbn [fst snd] in H. destruct od as [d|]; [|destruct H].
+    destruct (positions_of t d 0%Z) as [|p l] eqn:E; [destruct H|]. destruct H as [H|[]]. inversion H; subst.
+    exists d. split; [exact Hin|split; [symmetry; exact E | discriminate]].
+  - intros (d & Hin & -> & Hne). exists (rid, Some d). split; [exact Hin|]. cbn [fst snd].
+    destruct (positions_of t d 0%Z); [congruence | left; reflexivity].
+Qed.
